@@ -45,11 +45,25 @@ def main(tier):
         if dtype == "bfloat16" and w == "qint8" and a is None and spec["t"] == "linear" and spec["in"] % 4 == 0 and spec["in"] % 16 != 0:
             spec["in"] = 16 * (spec["in"] // 16 + 1)  # F14 (C07): interpreter crash in torch._weight_int8pack_mm
         modules.append({"seed": ck.seed * 1000 + 5000 + i, "dtype": dtype, "weights": w, "activations": a, "frozen": rng.random() < 0.3, "variant": rng.randint(0, 11),
-                        "layout": rng.choice(["contig", "contig", "permuted", "expanded"]), "updates": rng.randint(0, 2), "update_via": rng.choice(["data", "inplace", "assign_data", "state_dict"]), "warm_no_grad": rng.random() < 0.4, "in_calibration": rng.random() < 0.3, "spec": spec})
-    res = ck.impl("grad", {"exact": exact, "modules": modules}, timeout=3300)
+                        "layout": rng.choice(["contig", "contig", "permuted", "expanded"]), "updates": rng.randint(0, 2), "update_via": rng.choice(["data", "inplace", "assign_data", "state_dict"]), "warm_no_grad": rng.random() < 0.4, "in_calibration": rng.random() < 0.3, "spec": spec,
+                        "gscale": 1024.0 if (dtype == "float16" and i % 2 == 0) else 1.0})
+    # chains of two quantized linears whose activation qtypes differ (and same-qtype controls)
+    chains = [{"seed": 40 + k, "dtype": dt_, "weights": "qint8", "acts": acts_, "lead": lead_}
+              for k, (dt_, acts_, lead_) in enumerate([("float32", ["qfloat8", "qint8"], [4]), ("float32", ["qint8", "qfloat8_e5m2"], [2, 3]), ("float16", ["qfloat8", "qint8"], [2, 2, 3]),
+                                                       ("float32", ["qint8", "qint8"], [4]), ("bfloat16", ["qint8", "qfloat8"], [4]), ("float32", [None, "qint8"], [4]), ("float32", ["qint8", None], [4])])]
+    res = ck.impl("grad", {"exact": exact, "modules": modules, "chains": chains}, timeout=3300)
     if "crashed" in res:
         ck.violation("implementation worker crashed: " + res.get("stderr", "")[-300:], {"stderr": res.get("stderr")})
         ck.finish("coqc GenGrad.v TieGrad.v C11.v")
+    for c, r in zip(chains, res.get("chains", [])):
+        ck.count("chain", f"{c['acts'][0]}->{c['acts'][1]}")
+        ck.case(("chain", c["dtype"], tuple(str(a_) for a_ in c["acts"]), tuple(c["lead"])), nontrivial=c["acts"][0] != c["acts"][1])
+        if not r.get("ok"):
+            ck.violation(f"forward / backward through two quantized linears (activations {c['acts'][0]} -> {c['acts'][1]}, {c['dtype']}) raised {r.get('exn')}: {str(r.get('msg'))[:120]}", {"case": c, "exception": r})
+            continue
+        bad = {k_: v_ for k_, v_ in r["grads"].items() if v_ != "ok"}
+        if bad:
+            ck.violation(f"after a backward pass through two quantized linears (activations {c['acts'][0]} -> {c['acts'][1]}, {c['dtype']}) some gradients are missing / non-finite / unrelated to the float model's: {bad}", {"case": c, "grads": r["grads"]})
     # ---- correspondence: exact integer gradients vs the Coq model
     rows = []
     refs = []
